@@ -5,17 +5,18 @@ import "fmt"
 // C39: Rename and Move relocate objects without losing anything (spec: coq/C38/Spec.v spec_rename / spec_move).
 
 func init() {
-	register(&Prop{ID: "C39", Module: "V.C39.Check", Gen: c39Gen, Quick: 900, Thorough: 12000, Shard: 150})
+	register(&Prop{ID: "C39", Module: "V.C39.Check", Gen: c39Gen, Quick: 900, Thorough: 12000, Shard: 300})
 }
 
 func c39KF(pg *c38PGraph, op *c38Op, text string) []string {
 	return c38KFMap(pg, op, map[string]string{
-		"rename-wrong-scope":          "C39-rename-unique-name-wrong-scope",
-		"move-into-own-descendant":    "C39-move-into-own-descendant",
-		"move-dotted-ref":             "C39-move-dotted-key-loses-primary",
-		"hoist-undetected-child":      "C39-hoist-conflict-not-detected-for-flat-field-child",
-		"move-dest-referenced-inside": "C39-move-destination-referenced-from-inside",
-		"move-mid-edge-key":           "C39-move-object-in-middle-of-edge-key",
+		"rename-wrong-scope":                "C39-rename-unique-name-wrong-scope",
+		"move-into-own-descendant":          "C39-move-into-own-descendant",
+		"move-dotted-ref":                   "C39-move-dotted-key-loses-primary",
+		"hoist-undetected-child":            "C39-hoist-conflict-not-detected-for-flat-field-child",
+		"move-dest-referenced-inside":       "C39-move-destination-referenced-from-inside",
+		"move-prefixed-underscore-edge-ref": "C39-move-prefixed-underscore-edge-reference",
+		"move-mid-edge-key":                 "C39-move-object-in-middle-of-edge-key",
 	})
 }
 
